@@ -1203,6 +1203,56 @@ v("C15", "queryservice-wrong-key", "server.go",
    {"file": "server.go", "old": "	svc := m[name]\n	return svc.desc, svc.handler", "new": "	svc := m[strings.TrimSpace(name)]\n	return svc.desc, svc.handler"},
    {"file": "server.go", "old": '	"reflect"\n', "new": '	"reflect"\n	"strings"\n'}])
 
+# ------------------------------------------------------------------ C16
+v("C16", "writes-input-methods", "intercept.go",
+  """		intercepted.Methods = make([]grpc.MethodDesc, len(svcDesc.Methods))
+		for i, md := range svcDesc.Methods {""", """		for i, md := range svcDesc.Methods {""", "R1", "input-not-written", "decorated handlers written into the caller's Methods slice")
+v("C16", "order-inverted", "intercept.go",
+  """							h := func(ctx context.Context, req interface{}) (interface{}, error) {
+								return unaryInt(ctx, req, info, handler)
+							}
+							// we first call provided interceptor, but supply a handler that will call unaryInt
+							return interceptor(ctx, req, info, h)""", """							h := func(ctx context.Context, req interface{}) (interface{}, error) {
+								return interceptor(ctx, req, info, handler)
+							}
+							return unaryInt(ctx, req, info, h)""", "R2", "calls-transport-first", "decorating interceptor runs before the transport's")
+v("C16", "transport-interceptor-dropped", "intercept.go",
+  "					return origHandler(srv, ctx, dec, combinedInterceptor)", "					_ = combinedInterceptor\n					return origHandler(srv, ctx, dec, unaryInt)", "R2", "interceptor-arg", "transport-supplied interceptor silently ignored by decorated services")
+v("C16", "stream-flags-crossed-decorator", "intercept.go",
+  """				IsClientStream: sd.ClientStreams,
+				IsServerStream: sd.ServerStreams,
+			}
+			intercepted.Streams[i]""", """				IsClientStream: sd.ServerStreams,
+				IsServerStream: sd.ClientStreams,
+			}
+			intercepted.Streams[i]""", "R3", "flags", "interceptors told the wrong streaming flags")
+v("C16", "http-fullmethod-no-slash", "httpgrpc/server.go",
+  """		FullMethod:     fmt.Sprintf("/%s/%s", serviceName, desc.StreamName),""", """		FullMethod:     fmt.Sprintf("%s/%s", serviceName, desc.StreamName),""", "R3", "full-method", "stream interceptors see a method name without the leading slash")
+v("C16", "identity-when-one-nil", "intercept.go",
+  """func InterceptServer(svcDesc *grpc.ServiceDesc, unaryInt grpc.UnaryServerInterceptor, streamInt grpc.StreamServerInterceptor) *grpc.ServiceDesc {
+	if unaryInt == nil && streamInt == nil {""", """func InterceptServer(svcDesc *grpc.ServiceDesc, unaryInt grpc.UnaryServerInterceptor, streamInt grpc.StreamServerInterceptor) *grpc.ServiceDesc {
+	if unaryInt == nil || streamInt == nil {""", "R4", "identity", "a single interceptor is dropped")
+v("C16", "http-unary-nil-interceptor", "httpgrpc/server.go",
+  "		resp, err := desc.Handler(svr, grpc.NewContextWithServerTransportStream(ctx, &sts), dec, unaryInt)", "		resp, err := desc.Handler(svr, grpc.NewContextWithServerTransportStream(ctx, &sts), dec, nil)", "R5", "unary-interceptor-handed-over", "HTTP unary calls bypass the configured interceptor")
+v("C16", "inproc-stream-both", "inprocgrpc/in_process.go",
+  """			err = c.streamInterceptor(handler, serverStream, &info, md.Handler)
+		} else {
+			err = md.Handler(handler, serverStream)
+		}""", """			err = c.streamInterceptor(handler, serverStream, &info, md.Handler)
+		}
+		if err == nil {
+			err = md.Handler(handler, serverStream)
+		}""", "R5", "stream-dispatch", "handler runs again after the interceptor")
+v("C16", "decorator-captures-range-var", "intercept.go",
+  """		for i, sd := range svcDesc.Streams {
+			origHandler := sd.Handler
+			info := &grpc.StreamServerInfo{""", """		var origHandler grpc.StreamHandler
+		for i, sd := range svcDesc.Streams {
+			origHandler = sd.Handler
+			info := &grpc.StreamServerInfo{""", "R6", "captures", "all decorated streams dispatch to the last entry's handler")
+v("C16", "stream-info-of-first-entry", "intercept.go",
+  """				FullMethod:     fmt.Sprintf("/%s/%s", svcDesc.ServiceName, sd.StreamName),""", """				FullMethod:     fmt.Sprintf("/%s/%s", svcDesc.ServiceName, svcDesc.ServiceName),""", "R3", "full-method", "method name replaced by the service name")
+
 
 def main():
     if os.path.isdir(OUT):
